@@ -44,6 +44,22 @@ CHECKS.update({
         ref='3/C20'),
 })
 
+CHECKS.update({
+    'C05': dict(
+        technique='model-based property testing (Hypothesis-generated histories interpreted against an RFC 6762 s10 reference model) plus bounded-exhaustive enumeration of short histories',
+        text=SIM + 'histories of independent-encoder datagrams and clock steps are applied to one real instance; every lookup path of '
+             'DNSCache is compared with CacheModel after every op and every purge report with the model purge set. All histories up to '
+             'depth 3 (quick) / 4 (thorough) over a 21-symbol alphabet are enumerated; beyond that random exploration.',
+        note='trusts CacheModel, the simulator and vlib/wire.py; contradictory datagrams (same identity with zero and non-zero TTL) excluded',
+        ref='3/C05'),
+    'C06': dict(
+        technique='model-based property testing (Hypothesis histories with listener-set mutations, spy listeners, reference model)',
+        text=SIM + 'per datagram the spy listeners\' calls (count, order, arguments, identity of the previous object) and the cache state '
+             'visible inside the first and second callback are compared with what CacheModel derives from the statement.',
+        note='trusts CacheModel and the simulator; listeners added/removed during a datagram are exempt for that datagram',
+        ref='3/C06'),
+})
+
 NOT_YET = {
 }
 
